@@ -11,7 +11,8 @@ LEVEL = 'fault_enumeration'
 DESIGN_REF = 'DESIGN.md 4/C06'
 RULE = ('Hypothesis draws (T, v) and a reference encoding e (DER, CER, BER indefinite / chunked / every choice point drawn); for '
         'EVERY cut point k in [0, |e|) the prefix e[:k] (classified "truncated" by the reference reader first) is presented as '
-        'bytes, as io.BytesIO, and as a seekable and a non-seekable non-blocking stream that holds k octets and is then closed; '
+        'bytes, as io.BytesIO, and as a seekable and a non-seekable non-blocking stream that holds k octets (delivered at once, or in '
+        'two bursts with idle polls in between) and is then closed; '
         'with the guiding type and, for self-describing T, without. Oracle: one-shot decode raises SubstrateUnderrunError (never '
         'a value, never another error); the streaming decoder yields only underrun objects while the stream is open and raises '
         'EndOfStreamError within 4 steps after the close. evaluations = number of (prefix, presentation, guided?) runs; '
@@ -19,7 +20,7 @@ RULE = ('Hypothesis draws (T, v) and a reference encoding e (DER, CER, BER indef
         'inside the encoding (not in the middle of primitive contents); distinct = distinct (e, k, presentation).')
 ASSUMPTIONS = ['TLV encodings are prefix-free: no proper prefix of a valid encoding is a complete encoding (asserted with the '
                'reference reader for every prefix)']
-SHARDS = {'quick': (16, 60), 'thorough': (16, 2500)}
+SHARDS = {'quick': (16, 45), 'thorough': (16, 2000)}
 BUDGET = {'quick': 100, 'thorough': 1500}
 MIN_NONTRIVIAL = {'quick': 500, 'thorough': 5000}
 CFG = {'long_str_pct': 0, 'max_depth': 2, 'max_comps': 3}
@@ -57,12 +58,24 @@ def selfdesc(T):
     return not any(m == 'I' for t in fz.type_nodes(T) for m, _c, _n in t.get('tags', ())) and 'ANY' not in ir.kinds_in(T)
 
 
-def stream_run(codec, make, prefix, spec):
-    """Feed prefix to an open non-blocking stream, step the decoder, close, step again. -> (kind, message) or None."""
+def stream_run(codec, make, prefix, spec, first=None):
+    """Feed prefix to an open non-blocking stream (in two bursts with idle polls in between when `first` is given), step the
+    decoder, close, step again. -> (kind, message) or None."""
     st = make()
-    st.feed_bytes(prefix)
+    st.feed_bytes(prefix if first is None else prefix[:first])
     try:
         it = iter(lib.DEC[codec].StreamingDecoder(st, asn1Spec=spec) if spec is not None else lib.DEC[codec].StreamingDecoder(st))
+        if first is not None:
+            for i in range(2):
+                try:
+                    x = next(it)
+                except StopIteration:
+                    return ('open-stop', 'iteration stopped after the first burst of %d octets (step %d)' % (first, i))
+                except error.PyAsn1Error as ex:
+                    return ('open-raises', 'open stream: raised %s after the first burst of %d octets' % (harness.exc_sig(ex), first))
+                if not isinstance(x, error.SubstrateUnderrunError):
+                    return ('open-yields', 'open stream: yielded %r after the first burst of %d octets' % (type(x).__name__, first))
+            st.feed_bytes(prefix[first:])
         for i in range(3):
             try:
                 x = next(it)
@@ -145,6 +158,9 @@ def run_case(case, col=None):
             pres.append(('oneshot-openpipe-%s' % sname, res))
             for pname, make in (('seekable', streams.SeekableFeed), ('pipe', streams.PipeFeed)):
                 pres.append(('stream-%s-%s' % (pname, sname), stream_run(codec, make, prefix, spec)))
+                # the same prefix arriving in two bursts with idle polls in between
+                for j in sorted(set(x for x in (k // 2, k - 1) if 0 < x < k)):
+                    pres.append(('stream-%s2-%s' % (pname, sname), stream_run(codec, make, prefix, spec, first=j)))
             for sub, res in pres:
                 if col is not None:
                     col.case(e + bytes([k % 256, k // 256]) + sub.encode(), nontriv, ['cut:' + kinds[k], sub.split('-')[0] + '-' + sub.split('-')[1]],
